@@ -201,6 +201,9 @@ pub fn run_c07(cx: &Cx) -> PropResult {
         }
         let nh = crate::props::derived::batch().histories.len();
         for h in (shard..nh).step_by(cx.shards) {
+            if !crate::props::derived::group_ok(&crate::props::derived::batch().histories[h]) {
+                continue;
+            }
             let strat = (compiled_evo_strategy(h), suffix_strategy()).prop_map(|(evo, suffix)| EvoSuffixCase { evo, suffix });
             if drive(crate::run::tag_seed(derive_seed(cx.seed, cx.prop, h as u64, 7), 10 + h as u64), &strat, per_shard / 8, acc, &|c: &EvoSuffixCase| to_json(&json!({"Evo": c})), &mut |c, a, r| check_c07_evo(c, a, r)) {
                 return;
@@ -355,6 +358,9 @@ pub fn run_c08(cx: &Cx) -> PropResult {
         }
         let nh = crate::props::derived::batch().histories.len();
         for h in (shard..nh).step_by(cx.shards) {
+            if !crate::props::derived::group_ok(&crate::props::derived::batch().histories[h]) {
+                continue;
+            }
             let strat = compiled_evo_strategy(h);
             if drive(crate::run::tag_seed(derive_seed(cx.seed, cx.prop, h as u64, 7), 10 + h as u64), &strat, per_shard / 10, acc, &|c: &EvoCase| to_json(&json!({"Evo": c})), &mut |c, a, r| check_c08_evo(c, a, r)) {
                 return;
